@@ -1,4 +1,7 @@
-(* C20 - driver for the extracted model of the synthetic data generators (Model/DataGen.v).
+(* C20 - driver for the extracted model of the synthetic data generators (Model/DataGen.v, Gen/DataGenRules.v).
+   draw_gmm and multivariate_student_t are answered TWICE: first by the definitions regenerated from the source
+   (module DataGenRules), then by the hand-written model they are proved equal to (module DataGen); the harness compares the
+   implementation with the first and the first with the second.
    Token formats.  vec = <n> x1..xn;  mat = <r> vec..vec (list of rows);  mats = <k> mat..mat
      gmm_in = <loc:mat> <scale: "2" mat | "3" mats> <pvals:vec>
      draws  = <m> draw..draw,  draw = "L" <n> i1..in | "V" vec | "M" mat
@@ -65,18 +68,23 @@ let () =
     let g = next_gmm t in
     let eigs = Array.of_list (next_list next_vec_l t) in
     let eig k = let i = int_of_nat k in if i < Array.length eigs then eigs.(i) else [] in
-    out_err (gmm_check fops g eig));
+    out_err (DataGenRules.gen_gmm_check fops g eig); out_err (gmm_check fops g eig));
   (* gmm <n> <gmm_in> <draws> -> calls, run *)
   register "c20.gmm" (fun t ->
     let n = next_nat t in let g = next_gmm t in let rs = next_draws t in
+    out_calls (DataGenRules.gen_gmm_calls fops n g); out_run (DataGenRules.gen_gmm_run rs);
     out_calls (gmm_calls fops n g); out_run (gmm_run rs));
   (* student <n> <loc> <scale> <df> <draws> -> check, calls, run (option mat) *)
   register "c20.student" (fun t ->
     let n = next_nat t in let loc = next_vec_l t in let scale = next_mat_l t in let df = next_float t in
     let rs = next_draws t in
+    let out_x = function None -> out_s "N" | Some x -> out_s "S"; out_matl x in
+    out_bool (DataGenRules.gen_student_check loc scale);
+    out_calls (DataGenRules.gen_student_calls fops n loc scale df);
+    out_x (DataGenRules.gen_student_run fops df loc rs);
     out_bool (student_check loc scale);
     out_calls (student_calls fops n loc scale df);
-    (match student_run fops df loc rs with None -> out_s "N" | Some x -> out_s "S"; out_matl x));
+    out_x (student_run fops df loc rs));
   (* gstm <n> <alpha> <df> <draws> -> n_gaussian, calls, run *)
   register "c20.gstm" (fun t ->
     let n = next_nat t in let alpha = next_float t in let df = next_float t in let rs = next_draws t in
